@@ -113,7 +113,7 @@ Create HintDb agentcore_val.
   contact_controlled contact_candidates handle_request_controlling handle_success_controlling
   handle_success_controlled accept_nomination handle_request_controlled handle_role_conflict
   handle_inbound_request handle_inbound tick accept_data inbound_data do_write conn_write
-  conn_write_to_pair conn_read do_start do_set_remote_creds do_restart do_renominate do_close step_m
+  conn_write_to_pair conn_read do_start do_set_remote_creds do_restart do_renominate renominate_op do_close step_m
   : agentcore agentcore_sel agentcore_val agentcore_role.
 (* agentcore_role keeps the role dispatchers folded; agentcore_sel keeps set_selected / reselect folded (they are atomic for selection invariants);
    agentcore_val additionally keeps validate_selected folded *)
